@@ -171,7 +171,9 @@ def applyBlock (st : St) (p : Placement) : St :=
     match weightEntries bkeys offset p.molToBlock,
           p.refs.mapM (fun r => (C12.corrOf bkeys offset r.1).map (fun o => (o, r.2))) with
     | some wes, some newRefs =>
-      let overlap := atoms.filter (fun a => (dom st.molToOut).contains a)
+      -- `set(mol_to_out) & set(mol_to_block)` (in apply_block_mapping) united with
+      -- `block_matched_atoms.intersection(match[0])` (in do_mapping)
+      let overlap := atoms.filter (fun a => (dom st.molToOut).contains a || st.placed.any (fun k => k.contains a))
       let sp := spawnedOut bkeys offset p.molToBlock
       let es := wes ++ zeroEntries atoms sp
       { out := out1,
@@ -219,11 +221,15 @@ def beadOf (m : MolIn) (st : St) (n : Int × Attrs) : Bead :=
   | some ws =>
     let as := ws.map Prod.fst
     match (st.refs.lookup n.1).bind m.atom? with
-    | some r => { key := n.1, name := n.2.name, resid := n.2.resid, cg := n.2.cg,
+    | some r => { key := n.1, name := n.2.name,
+                  -- `resid` is stashed: copied only when the particle has none (a particle created by a
+                  -- modification mapping; every block particle got one from merge_molecule)
+                  resid := n.2.resid.orElse (fun _ => some r.resid), cg := n.2.cg,
                   oldResid := some r.resid, atoms := as, weights := ws }
     | none =>
-      { key := n.1, name := n.2.name, resid := n.2.resid, cg := n.2.cg,
-        oldResid := (as.filterMap m.atom?).head?.map (·.resid), atoms := as, weights := ws }
+      let first := (as.filterMap m.atom?).head?.map (·.resid)
+      { key := n.1, name := n.2.name, resid := n.2.resid.orElse (fun _ => first), cg := n.2.cg,
+        oldResid := first, atoms := as, weights := ws }
 
 def garbageCount (m : MolIn) (st : St) : Nat :=
   (st.outToMol.filter (fun bw => ((st.refs.lookup bw.1).bind m.atom?).isNone
